@@ -75,3 +75,26 @@ pub assume_specification [String::len] (s: &String) -> (r: usize)
 pub assume_specification [String::truncate] (s: &mut String, n: usize)
     requires all_ascii(str_bytes(old(s)@))
     ensures str_bytes(final(s)@) == (if n < str_bytes(old(s)@).len() { str_bytes(old(s)@).subrange(0, n as int) } else { str_bytes(old(s)@) });
+/// a string is empty iff its UTF-8 encoding is
+pub proof fn lemma_str_empty(s: Seq<char>)
+    ensures (s.len() == 0) == (str_bytes(s).len() == 0)
+{
+    if s.len() == 0 {
+        vstd::utf8::is_ascii_chars_encode_utf8(s);
+    } else {
+        vstd::utf8::encode_utf8_decode_utf8(s);
+        if str_bytes(s).len() == 0 {
+            assert(str_bytes(s) =~= Seq::<u8>::empty());
+            vstd::utf8::is_ascii_chars_encode_utf8(Seq::<char>::empty());
+            assert(str_bytes(Seq::<char>::empty()) =~= Seq::<u8>::empty());
+            vstd::utf8::encode_utf8_decode_utf8(Seq::<char>::empty());
+        }
+    }
+}
+pub proof fn lemma_empty_literal()
+    ensures "".spec_bytes() == Seq::<u8>::empty(), ""@.len() == 0
+{
+    reveal_strlit("");
+    lemma_str_empty(""@);
+    assert("".spec_bytes() =~= Seq::<u8>::empty());
+}
